@@ -1,6 +1,6 @@
 /- C26 driver:
    `C26 handle <root> <default|~> <pat> <target> [[path,kind],…]`  → `ok <resp> [[q,path],…]`
-   `C26 normpath <p>` `C26 join <a> <b>` `C26 decode <s>` `C26 inside <root> <q>` `C26 resolve <p>` -/
+   `C26 validTarget <t>` `C26 normpath <p>` `C26 join <a> <b>` `C26 decode <s>` `C26 inside <root> <q>` `C26 resolve <p>` -/
 import TornadoModel.Base.Wire
 import TornadoModel.C26.Spec
 namespace TornadoModel.C26.Drv
@@ -56,6 +56,9 @@ def handle (toks : List String) : String :=
         let (r, qs) := C26.handle { root := root, defaultFile := d } pat t (lookupFs tab)
         ok [encResp r, .list (qs.map encQ)]
       | _, _, _, _, _ => err "bad-arg"
+    | "validTarget", [t] => match t.cps? with
+      | some t => ok [V.ofBool (validTarget t)]
+      | none => err "bad-arg"
     | "normpath", [p] => match p.cps? with
       | some p => ok [V.ofCps (normpath p)]
       | none => err "bad-arg"
